@@ -151,7 +151,8 @@ class Algebra:
             base = _strip_casts(e.child('base') or e.c[0])
             idx = _strip_casts(e.child('idx') or e.c[1])
             if base.k in ('DeclRefExpr', 'MemberExpr') and idx.cv is not None:
-                return atom('%s[%d]' % (base.n, idx.cv))
+                nm = '%s[%d]' % (base.n, idx.cv)
+                return env[nm] if nm in env else atom(nm)
             raise Unsupported('array access')
         if k == 'UnaryOperator' and e.op in ('-', '+'):
             v = self.value(e.child('sub'), env)
